@@ -127,7 +127,7 @@ class Ctx:
             return ok
         # axiom audit
         audit_src = "".join(f"import {m}\n" for m in modules) + "".join(f"#print axioms {t}\n" for t in theorems)
-        audit_path = os.path.join(VERIF, "lean", f".audit_{self.pid}.lean")
+        audit_path = os.path.join(VERIF, "lean", f".audit_{self.pid}_{os.getpid()}.lean")
         open(audit_path, "w").write(audit_src)
         try:
             p = subprocess.run(
